@@ -63,6 +63,7 @@ type Op struct {
 	Src   int      `json:"src,omitempty"`
 	Soff  int      `json:"soff,omitempty"`
 	G     int      `json:"g,omitempty"`
+	K     string   `json:"k,omitempty"` // env: "launch" = the oldest kernel of GPU g finishes, "other" = its oldest other request
 	Pol   string   `json:"pol,omitempty"`
 }
 
@@ -691,13 +692,31 @@ func (w *World) drain() {
 	}
 }
 
+func isLaunch(m sim.Msg) bool { _, ok := m.(*protocol.LaunchKernelReq); return ok }
+
+// pick returns the index of the oldest pending request of GPU g of the wanted
+// kind ("" any, "launch", "other"), -1 if there is none.  Copies and flushes
+// are served in order; a kernel runs beside them and finishes when the
+// environment says so.
+func (w *World) pick(g int, kind string) int {
+	for i, m := range w.gpus[g-1].pending {
+		if kind == "" || (kind == "launch") == isLaunch(m) {
+			return i
+		}
+	}
+	return -1
+}
+
 // answer lets harness GPU g serve its oldest request.
-func (w *World) answer(g int) bool {
+func (w *World) answer(g int) bool { return w.answerKind(g, "") }
+
+func (w *World) answerKind(g int, kind string) bool {
 	gp := w.gpus[g-1]
-	if len(gp.pending) == 0 {
+	at := w.pick(g, kind)
+	if at < 0 {
 		return false
 	}
-	m := gp.pending[0]
+	m := gp.pending[at]
 	var rsp sim.Msg
 	switch r := m.(type) {
 	case *protocol.MemCopyH2DReq:
@@ -719,7 +738,7 @@ func (w *World) answer(g int) bool {
 	if w.port.Deliver(rsp) != nil {
 		return false
 	}
-	gp.pending = gp.pending[1:]
+	gp.pending = append(gp.pending[:at:at], gp.pending[at+1:]...)
 	return true
 }
 
@@ -755,7 +774,21 @@ func (w *World) envAuto(pol string) {
 		if w.rng.Intn(3) == 0 {
 			return
 		}
-		w.answer(cand[w.rng.Intn(len(cand))])
+		g := cand[w.rng.Intn(len(cand))]
+		if w.rng.Intn(2) == 0 && w.answerKind(g, "other") { // a kernel of this GPU keeps running meanwhile
+			return
+		}
+		w.answer(g)
+	case "kernslow":
+		// kernels take long: everything else is served first
+		for _, g := range cand {
+			if w.answerKind(g, "other") {
+				return
+			}
+		}
+		if w.beng.Pending() == 0 && w.port.PeekOutgoing() == nil {
+			w.answerKind(cand[w.rng.Intn(len(cand))], "launch")
+		}
 	case "flushlast", "pieceslast":
 		// hold back one kind while the other kind may still show up
 		var pref []int
@@ -988,14 +1021,14 @@ func (w *World) doEnv(op *Op) {
 		return
 	}
 	w.d.TickLater()
-	for i := 0; i < 3000 && len(w.gpus[g-1].pending) == 0; i++ {
+	for i := 0; i < 3000 && w.pick(g, op.K) < 0; i++ {
 		w.tick()
 		w.drain()
-		if w.beng.Pending() == 0 && w.port.PeekOutgoing() == nil && len(w.gpus[g-1].pending) == 0 {
+		if w.beng.Pending() == 0 && w.port.PeekOutgoing() == nil && w.pick(g, op.K) < 0 {
 			break
 		}
 	}
-	if !w.answer(g) {
+	if !w.answerKind(g, op.K) {
 		w.stats["env_skipped"]++
 		return
 	}
